@@ -592,6 +592,7 @@ func (c *client) Receive(reader io.Reader) error {
 				errMsg := fmt.Sprintf("Unsupported compression type: %s (supported compression types: %s)",
 					compression, strings.Join(codecs.CompressionNames, ", "))
 				c.send(raw.Header, &message.ProtocolError{ErrorMessage: errMsg})
+				return nil // The error is the (only) response to this STARTUP request
 			}
 		}
 		c.send(raw.Header, &message.Ready{})
